@@ -111,7 +111,7 @@ Print Assumptions C19_window_reader_example.
 
 (* ------------------------------------------------------------------ termination of the reading loops *)
 
-(* One read_chunk call of any size > 0, in ANY part state over ANY stream state (any segmentation, arrival
+(* One read_chunk call (with the re-reads a base64 part may need) of any size > 0, in ANY part state over ANY stream state (any segmentation, arrival
    schedule, push-back history): it raises, or the part is at_eof afterwards, or the measure
    4 * (2 * bytes left in the stream + |_prev_chunk|) + (3 - _content_eof) strictly decreases. *)
 Theorem C19_read_chunk_progress : forall size p s d p' s',
@@ -153,42 +153,33 @@ Example C19_termination_hypotheses :
 Proof. vm_compute. split; [right; discriminate | reflexivity]. Qed.
 Print Assumptions C19_termination_hypotheses.
 
-(* The same claim for the readline API is REFUTED on the faithful model: at stream EOF readline() returns b""
-   without setting at_eof and without raising (there is no counterpart of the `_content_eof > 2` guard), so
-   `while not part.at_eof(): await part.readline()` exhausts every loop bound.  Witness replayed on the
-   implementation: corpus/C19/readline_loop_at_eof.json (known finding C19-readline-loop-at-eof). *)
-Theorem C19_readline_loop_terminates_refuted :
-  exists p s, p_at_eof p = false /\ s_at_eof s = true /\
-    (forall fuel, lines_loop fuel 0 false [] p s = Err EFuel).
-Proof. exact readline_loop_spins. Qed.
-Print Assumptions C19_readline_loop_terminates_refuted.
+(*READLINE-TERMINATION*)
 
 (* ------------------------------------------------------------------ base64 quartet alignment *)
 
-(* Full statement wanted: every chunk read_chunk returns before the end of a base64 part holds a multiple of
-   four base64 characters (so that each chunk can be decoded on its own, as BodyPartReaderPayload.write and
-   BaseRequest.post do).  REFUTED on the faithful model: when the first stream read delivers a single content
-   byte, read_chunk(8192) returns that byte.  Witness replayed on the implementation:
-   corpus/C19/base64_short_read.json (known finding C19-base64-short-read). *)
-Theorem C19_base64_alignment_refuted :
-  exists p s d p' s', p_b64 p = true /\ read_chunk chunk_size p s = Ok (d, p', s') /\
-                      p_at_eof p' = false /\ d = [89] /\ count_b64 d mod 4 = 1.
-Proof. exact base64_alignment_refuted. Qed.
-Print Assumptions C19_base64_alignment_refuted.
-
-(* What holds instead, for every chunk, requested size and part state: _align_base64_chunk cuts at a quartet
-   edge whenever the chunk it hands back holds at least one whole quartet.  The extra hypothesis
-   [4 <= count_b64 c] is exactly what the short read violates. *)
-Theorem C19_base64_quartets_partial : forall chunk size p c p',
-  align_base64 chunk size p = (c, p') -> at_end p = false -> 4 <= count_b64 c -> count_b64 c mod 4 = 0.
+(* _align_base64_chunk, for every chunk, requested size and part state (before the end of the part): the chunk it
+   hands back holds a multiple of four base64 characters - possibly none: after a short read the partial quartet is
+   carried and read_chunk reads on (fix 75d1fb0) - with one documented exception kept by the code: the requested
+   number of bytes was there and held no whole quartet, then they are handed back as they are. *)
+Theorem C19_base64_quartets : forall chunk size p c p',
+  align_base64 chunk size p = (c, p') -> at_end p = false ->
+  count_b64 c mod 4 = 0 \/ (size <= lenN c /\ count_b64 c < 4).
 Proof. exact align_base64_quartets. Qed.
-Print Assumptions C19_base64_quartets_partial.
+Print Assumptions C19_base64_quartets.
+
+(* the witness that used to refute alignment (first stream read = one content byte): read_chunk(8192) now returns a
+   non-empty chunk of whole quartets; regression case corpus/C19/fixed-base64_short_read.json *)
+Example C19_base64_short_read_fixed :
+  exists d p' s', read_chunk chunk_size b64_part b64_stream = Ok (d, p', s') /\ d <> [] /\ count_b64 d mod 4 = 0.
+Proof. exact base64_short_read_example. Qed.
+Print Assumptions C19_base64_short_read_fixed.
 
 Example C19_base64_example :
   let p := new_part [45; 45; 66] None true 100 in
   at_end p = false /\
-  align_base64 [89; 87; 74; 106; 13; 10; 90; 71; 86] 8192 p = ([89; 87; 74; 106; 13; 10], p_set_carry [90; 71; 86] p).
-Proof. vm_compute. split; reflexivity. Qed.
+  align_base64 [89; 87; 74; 106; 13; 10; 90; 71; 86] 8192 p = ([89; 87; 74; 106; 13; 10], p_set_carry [90; 71; 86] p) /\
+  align_base64 [89; 87] 8192 p = ([], p_set_carry [89; 87] p).
+Proof. vm_compute. repeat split; reflexivity. Qed.
 Print Assumptions C19_base64_example.
 
 (* ------------------------------------------------------------------ limits while reading; nested readers *)
